@@ -166,6 +166,19 @@ RFile(c, k) ==
 RNext == RPick \/ \E c \in Copy : \E k \in scn.files : RFile(c, k)
 RSpec == RInit /\ [][RNext]_rvars
 
+\* The same machine with the choice of the scenario written as a predicate on
+\* scn' (same set of scenarios, no enumeration): the refinement target for M -
+\* TLC otherwise spends |scenarios| comparisons on every MPick step.
+IsScenario(s) ==
+  \/ /\ s.mode = "tree" /\ s.files \in Trees /\ s.fault \in FaultMaps(s.files)
+     /\ s.pre \in PreOuts /\ s.esub \in ESubs
+  \/ s \in SingleScenarios
+RPickP == scn.mode = "none" /\ IsScenario(scn') /\ Start(scn')
+RNextP == RPickP \/ \E c \in Copy : \E k \in scn.files : RFile(c, k)
+RSpecP == RInit /\ [][RNextP]_rvars
+\* lemma (checked on RSpec): every enumerated choice satisfies the predicate form
+PickForms == [][scn.mode = "none" => RPickP]_rvars
+
 Done == scn.mode # "none" /\ \A c \in Copy : left[c] = {}
 
 \* ---- the property, clause by clause, as theorems of R (checked by TLC) -----
